@@ -1,0 +1,32 @@
+//go:build verif
+
+package cram
+
+import "io"
+
+// VerifErrorReader gives the verification harness access to the unexported
+// sticky-error stream reader that decodes ITF-8 and LTF-8 numbers.
+type VerifErrorReader struct{ er errorReader }
+
+// VerifNewErrorReader returns an errorReader over r.
+func VerifNewErrorReader(r io.Reader) *VerifErrorReader {
+	return &VerifErrorReader{er: errorReader{r: r}}
+}
+
+// ITF8 calls errorReader.itf8 and returns the value and the reader's error.
+func (v *VerifErrorReader) ITF8() (int32, error) { i := v.er.itf8(); return i, v.er.err }
+
+// LTF8 calls errorReader.ltf8 and returns the value and the reader's error.
+func (v *VerifErrorReader) LTF8() (int64, error) { i := v.er.ltf8(); return i, v.er.err }
+
+// ITF8Slice calls errorReader.itf8slice and returns the values and the reader's error.
+func (v *VerifErrorReader) ITF8Slice() ([]int32, error) { s := v.er.itf8slice(); return s, v.er.err }
+
+// VerifReadITF8 reads one ITF-8 number from r with a fresh errorReader.
+func VerifReadITF8(r io.Reader) (int32, error) { return VerifNewErrorReader(r).ITF8() }
+
+// VerifReadLTF8 reads one LTF-8 number from r with a fresh errorReader.
+func VerifReadLTF8(r io.Reader) (int64, error) { return VerifNewErrorReader(r).LTF8() }
+
+// VerifReadITF8Slice reads an ITF-8 array from r with a fresh errorReader.
+func VerifReadITF8Slice(r io.Reader) ([]int32, error) { return VerifNewErrorReader(r).ITF8Slice() }
